@@ -18,7 +18,7 @@ ENGINES = [
 CHECKS = {
     "C22": {
         "id": "C22", "pkg": "c22", "test": "TestC22", "level": "fault_enumeration",
-        "runs": {"quick": 6000, "thorough": 400000},
+        "runs": {"quick": 15000, "thorough": 400000},
         "chunk": 20000,
         "rule": "each run draws a tree of native packages (Package / nested CombinedPackage / hand-written ImportablePackage, 0-6 names from a 4-6 letter alphabet) and an importer chain; "
                 "LookupFunc is then executed once fault-free and once for EVERY callback call index k=1..distinct+1 with both fault kinds (error E, StopLookup), Lookup for every name, Import once. "
@@ -32,7 +32,7 @@ CHECKS = {
     },
     "C13": {
         "id": "C13", "pkg": "c13", "test": "TestC13", "level": "fault_enumeration",
-        "runs": {"quick": 4000, "thorough": 600000},
+        "runs": {"quick": 6000, "thorough": 600000},
         "chunk": 2000,
         "rule": "each run draws a template set (1-6 files: html/md/js/css/json/txt main, extends/import/render, macros with every result format incl. Markdown-in-HTML conversion, shows in all contexts of escape-relevant values, defer with and without recover), renders it fault-free to count the write calls W (Write and WriteString; the writer randomly implements io.StringWriter), then re-renders once per fault point: EVERY k in 1..W (a drawn 400-subset if W>400) x {(0,E), short write (n,E)}. "
                 "evaluations = renders; distinct_nontrivial = distinct (template set, k, kind) triples whose fault fired",
@@ -76,7 +76,7 @@ CHECKS = {
     },
     "C11": {
         "id": "C11", "pkg": "c11", "test": "TestC11", "level": "exploration",
-        "runs": {"quick": 1500, "thorough": 150000},
+        "runs": {"quick": 2500, "thorough": 150000},
         "chunk": 400, "run_timeout_s": 20,
         "rule": "each run draws a program from the concurrent generator, 70% in non-terminating mode (0-2 terminating blocks followed by: tight loop, loop with calls, unbounded recursion, nested loops, blocked send, blocked receive, select with/without default, select{}, range over a channel nobody closes, main waiting for a spinning child; optionally children that spin or block) and 30% terminating, and executes it under 6 seeded (schedule, cancellation plan) pairs: context kind (WithCancel, cancel of a parent, deadline reached by jumping the bubble's fake clock, already cancelled, Background, deadline never reached), firing rule (at a drawn scheduler step, at the first quiescence with the main goroutine blocked inside an operation, when nothing is runnable), scheduling policy. "
                 "evaluations = simulated executions; distinct_nontrivial = distinct (program, context-switch trace, position of the main goroutine when the event fired) triples in which the cancellation event fired",
@@ -105,7 +105,7 @@ CHECKS = {
     },
     "C18": {
         "id": "C18", "pkg": "c18", "test": "TestC18", "level": "exploration",
-        "runs": {"quick": 8000, "thorough": 1000000},
+        "runs": {"quick": 20000, "thorough": 1000000},
         "chunk": 5000,
         "rule": "each run draws a file tree (1-10 files in 0-3 directory levels, names with dots, spaces and non-ASCII letters) whose files reference each other through extends / import / render / render-default with relative, absolute and dot-dot paths (inside and escaping the root), self references, cycles, missing files, occasionally syntactically invalid paths; builds it through a recording file system (plain fs.FS, fs.ReadFileFS, FormatFS, or scriggo.Files behind the recorder; optionally 1-byte reads) fault-free, once more with every escaping reference retargeted to a missing in-root file, and once per file-system call k of the fault-free history with a drawn fault at k (I/O error, not-found lie, short read, data+EOF, zero-byte read). "
                 "evaluations = builds; distinct_nontrivial = distinct (tree, fs kind) pairs plus distinct (tree, fs kind, k, fault kind) tuples whose fault fired",
@@ -119,8 +119,8 @@ CHECKS = {
     },
     "C04": {
         "id": "C04", "pkg": "c04", "test": "TestC04", "level": "exploration",
-        "runs": {"quick": 32000, "thorough": 3000000},
-        "chunk": 4000, "run_timeout_s": 20,
+        "runs": {"quick": 80000, "thorough": 10000000},
+        "chunk": 4000, "run_timeout_s": 20, "mem_limit_mb": 6144,
         "rule": "each run picks a source set (60% a program or template of the repository's comparison corpus with its .dir companions, else a generated template set, file tree, skeleton program or concurrent program), lets the simulated disk damage one stored file (truncation at a drawn offset, 1-3 byte runs replaced from a delimiter/keyword dictionary, insertion, stale/new splice with another corpus file, duplicated block, short truncation plus delimiter such as `{##`, deleted block; 10% undamaged), optionally injects one I/O fault, draws the token channel capacity (default 20, 0, 1, 3), the FS kind and NoParseShortShowStmt, and builds inside a synctest bubble. "
                 "evaluations = builds; distinct_nontrivial = distinct (source, damaged file, damage) triples",
         "components": {"real": ["scriggo.Build / BuildTemplate incl. lexer goroutine, parser, template expansion, type checker, emitter", "Disassemble, UsedVars of successful builds", "io/fs.ReadFile"],
